@@ -315,7 +315,7 @@ class Interp:
                 return f.fn(ctx, *args, **kwargs)
             except TypeError as e:
                 # a call form the stub does not model (extra keyword, other arity) is outside the subset
-                if "unexpected keyword argument" in str(e) or "positional argument" in str(e):
+                if any(k in str(e) for k in ("unexpected keyword argument", "positional argument", "multiple values for argument", "required keyword-only argument")):
                     raise Unsupported(f"call form of {getattr(f, 'name', f)} not modelled: {e}")
                 raise
         if isinstance(f, FuncVal):
